@@ -57,7 +57,7 @@ def stage_gen_bv(chk, bins, types, n_bits, family, variants=("dbg-native",)):
     chk.cov["exhaustive"] = True
 
 
-def stage_trace(chk, bins, scenario, trace_module, invariants=(), variant="dbg-native", seeds=1, extra_args=()):
+def stage_trace(chk, bins, scenario, trace_module, invariants=(), variant="dbg-native", seeds=1, extra_args=(), consts=None):
     total = {}
     for k in range(seeds):
         seed = chk.seed + k
@@ -66,7 +66,7 @@ def stage_trace(chk, bins, scenario, trace_module, invariants=(), variant="dbg-n
                               "record %s trace seed %d on %s" % (scenario, seed, variant))
         if out is None:
             continue
-        ok, info, res = vlib.validate_trace(chk.work, "T_%s_%d" % (scenario.replace("-", "_"), k), trace_module, tpath, invariants=invariants)
+        ok, info, res = vlib.validate_trace(chk.work, "T_%s_%d" % (scenario.replace("-", "_"), k), trace_module, tpath, invariants=invariants, consts=consts)
         chk.add_tlc(res, "validate %s trace seed %d on %s" % (scenario, seed, variant), {"events": out["stats"].get("events"), "accepted": ok})
         for key, val in out["stats"].items():
             if isinstance(val, int):
@@ -424,9 +424,148 @@ def check_C19(chk):
                            "skip_option over every optional structure; distinct = distinct (content, history)")
 
 
+def stage_format_dir2(chk, bins, kinds=("raw", "int", "bv", "sparse", "rl", "wm"), maxbits=6, maxn=7):
+    """Direction 2 of C07: files written by the document-derived encoder (support structures absent, every admissible
+    low-part width, wider sample widths) are loaded by the library and queried.  MC_Format's RoundTrip invariant
+    (encoder and decoder agree) is checked on every generated file in the same TLC run."""
+    for kind in kinds:
+        path, res = vlib.generate_cases(chk.work, "GenFormat_" + kind, "MC_Format",
+                                        cfg_consts({"Kind": '"%s"' % kind, "MaxBits": maxbits, "MaxN": maxn}) + GEN_TAIL, timeout=1500)
+        chk.add_tlc(res, "MC_Format/%s: encoder/decoder round trip on every small-scope content and writer-side choice; files emitted" % kind,
+                    {"behaviours": len(res.replay_lines)})
+        st = "load files written from the document's rules alone (%s): content, equality with the library-built structure, answers" % kind
+        out = chk.run_harness(bins["dbg-native"], ["replay", "--kind", "format", "--cases", path], st)
+        if out:
+            chk.add_replay(out, st)
+
+
 def stage_format_nosupport(chk, bins):
-    """Composite structures from files without support structures, skip_option: see the serialization stages."""
-    st = "composite structures (sparse, wavelet matrix core, wavelet matrix) loaded from files whose embedded bitvectors carry no support structures; skip_option over every optional"
-    out = chk.run_harness(bins["dbg-native"], ["replay", "--kind", "nosupport", "--cases", os.path.join(vlib.VERIF, "lib", "empty.ndjson"), "--seed", str(chk.seed), "--tier", chk.tier], st)
+    stage_format_dir2(chk, bins, kinds=("bv", "sparse", "wm"))
+
+
+def stage_mc_stream(chk):
+    res = vlib.run_tlc(chk.work, "MC_Stream_run", "MC_Stream", cfg_consts({"MaxRecs": 3, "MaxSize": 3}) + "SPECIFICATION Spec\nINVARIANT Inv\nCHECK_DEADLOCK FALSE\n", workers=8)
+    vlib.tlc_must_pass(res, "MC_Stream")
+    chk.add_tlc(res, "MC_Stream: write / cut / load interleavings over <= 3 records of <= 3 elements; Tiling, loads succeed iff the record is present")
+
+
+def gen_streams(chk, maxstream, poolsel="all", label=""):
+    name = "GenStream_%s%d%s" % (poolsel, maxstream, label)
+    path, res = vlib.generate_cases(chk.work, name, "GenStream", cfg_consts({"MaxStream": maxstream, "Mode": '"streams"', "PoolSel": '"%s"' % poolsel}) + GEN_TAIL, timeout=1500)
+    chk.add_tlc(res, "GenStream: all streams of <= %d values from the %s pool" % (maxstream, poolsel), {"behaviours": len(res.replay_lines)})
+    return path, res
+
+
+def check_C06(chk):
+    bins = vlib.build_harness(["dbg-native"])
+    stage_mc_stream(chk)
+    path, res = gen_streams(chk, 2)
+    st = "replay streams: bytes written, bytes consumed, equality and answers of every loaded value, in memory and through files"
+    out = chk.run_harness(bins["dbg-native"], ["replay", "--kind", "stream", "--cases", path, "--file", "1"], st)
     if out:
         chk.add_replay(out, st)
+    if chk.thorough:
+        path3, res3 = gen_streams(chk, 3, poolsel="map")
+        out = chk.run_harness(bins["dbg-native"], ["replay", "--kind", "stream", "--cases", path3], st + " (streams of 3)")
+        if out:
+            chk.add_replay(out, st + " (streams of 3)")
+    pp, rp = vlib.generate_cases(chk.work, "GenStream_params", "GenStream", cfg_consts({"MaxStream": 0, "Mode": '"params"', "PoolSel": '"all"'}) + GEN_TAIL)
+    chk.add_tlc(rp, "GenStream: size_by_params grid", {"behaviours": len(rp.replay_lines)})
+    out = chk.run_harness(bins["dbg-native"], ["replay", "--kind", "stream", "--cases", pp], "replay size_by_params grid")
+    if out:
+        chk.add_replay(out, "replay size_by_params grid")
+    chk.cov["exhaustive"] = True
+    stage_trace(chk, bins, "stream", "TraceStream", seeds=2 if chk.thorough else 1)
+    return chk.finish(rule="cases = streams of serialized values of every Serialize type (73-value pool incl. empty instances, nested options, all 8 support "
+                           "subsets) written back to back; per value: bytes written, size_in_elements/size_in_bytes, bytes consumed, ==, answers; "
+                           "distinct = distinct (stream, position, comparison)")
+
+
+def stage_gen_writer(chk, bins, kind, widths, bufs, depth, maxpush, label):
+    name = "GenWriter_" + label
+    path, res = vlib.generate_cases(chk.work, name, "GenWriter", cfg_consts({"Kind": '"%s"' % kind, "Widths": widths, "Bufs": bufs, "Depth": depth, "MaxPush": maxpush}) + GEN_TAIL, timeout=1500)
+    chk.add_tlc(res, "GenWriter %s: widths %s, buffer sizes %s, depth %d / up to %d pushes, endings close / close twice / drop" % (kind, widths, bufs, depth, maxpush),
+                {"behaviours": len(res.replay_lines)})
+    st = "replay %s: len() after every push, close results, file bytes vs the in-memory vector's serialization" % name
+    out = chk.run_harness(bins["dbg-native"], ["replay", "--kind", "writer", "--cases", path], st, timeout=3000)
+    if out:
+        chk.add_replay(out, st)
+
+
+def check_C12(chk):
+    bins = vlib.build_harness(["dbg-native"])
+    chk.scratch_tmpdir()
+    if chk.thorough:
+        stage_gen_writer(chk, bins, "raw", "{}", "{0, 1, 63, 64, 65, 100, 128}", 3, 0, "raw3")
+        stage_gen_writer(chk, bins, "int", "{1, 7, 31, 32, 33, 63, 64}", "{0, 1, 2, 3, 9, 10, 63, 64, 65}", 0, 140, "int")
+    else:
+        stage_gen_writer(chk, bins, "raw", "{}", "{0, 64, 65, 128}", 3, 0, "raw3")
+        stage_gen_writer(chk, bins, "int", "{1, 7, 33, 64}", "{0, 1, 3, 9, 10, 64}", 0, 70, "int")
+    chk.cov["exhaustive"] = True
+    stage_trace(chk, bins, "writer", "TraceWriter", seeds=2 if chk.thorough else 1)
+    return chk.finish(rule="cases = (writer kind, item width, buffer size, push sequence, ending); raw: every history of 3 pushes over bits and 0..64-bit "
+                           "integers per buffer size (a 64-bit buffer is exactly full / over-full by k / straddled within 3 pushes); int: every push "
+                           "count up to several buffer fills per (width, buffer); distinct = distinct (configuration, history prefix)")
+
+
+def gen_map_streams(chk, maxstream):
+    path, res = gen_streams(chk, maxstream, poolsel="map")
+    return path, res
+
+
+def check_C13(chk):
+    bins = vlib.build_harness(["dbg-native"])
+    chk.scratch_tmpdir()
+    stage_mc_stream(chk)
+    path, res = gen_map_streams(chk, 3 if chk.thorough else 2)
+    st = "replay mapped views: every record start, offsets outside the file (len, len+1, 2len+3, 2^63, MAX-1, MAX), every truncation to whole elements"
+    out = chk.run_harness(bins["dbg-native"], ["replay", "--kind", "mapped", "--cases", path], st, timeout=3000)
+    if out:
+        chk.add_replay(out, st)
+    chk.cov["exhaustive"] = True
+    return chk.finish(rule="cases = (file made of <= 2 (3) mappable structures from a 38-value pool, view type, offset or truncation); content vs the "
+                           "value, map_offset, map_len vs the sizes the format determines (so views tile the file); refusal outside the file and on "
+                           "cut records; distinct = distinct (file, record, offset/truncation)")
+
+
+def check_C18(chk):
+    bins = vlib.build_harness(["dbg-native"])
+    chk.scratch_tmpdir()
+    total = stage_trace(chk, bins, "mmap", "TraceMap", seeds=2 if chk.thorough else 1, consts={"PageSize": os.sysconf("SC_PAGE_SIZE")})
+    return chk.finish(rule="cases = (file size, mapping mode, map/drop cycle with one or two live maps); outcome of MemoryMap::new, slice validity and "
+                           "content, bytes of the file mapped in /proc/self/maps after every new and drop, file content after writing through a "
+                           "mutable map; validated event by event by TLC against SDSMap (NoLeak)",
+                      extra={"page_size": 4096})
+
+
+def check_C14(chk):
+    bins = vlib.build_harness(["dbg-native"])
+    chk.scratch_tmpdir()
+    stage_mc_stream(chk)
+    path, res = gen_streams(chk, 1)
+    st = "faults: every byte prefix of every pool value's serialization -> load / skip_option must return an error; every write budget -> serialize must return an error"
+    out = chk.run_harness(bins["dbg-native"], ["replay", "--kind", "faults", "--cases", path], st, timeout=3000)
+    if out:
+        chk.add_replay(out, st)
+    mp, rm = gen_map_streams(chk, 2)
+    st = "faults: mapped views on every truncation of files of <= 2 mappable structures"
+    out = chk.run_harness(bins["dbg-native"], ["replay", "--kind", "mapped", "--cases", mp], st, timeout=3000)
+    if out:
+        chk.add_replay(out, st)
+    chk.cov["exhaustive"] = True
+    stage_trace(chk, bins, "wlimit", "TraceFaults", seeds=1)
+    return chk.finish(level="fault_enumeration",
+                      rule="fault points = (value from the 73-value pool, every byte cut 0..size-1 for load and skip_option, every write budget "
+                           "0..size-1 for serialize), (file of <= 2 mappable structures, every truncation to whole elements, every record), "
+                           "(writer configuration, every file-size limit 0..final size in steps of 8 bytes); distinct = distinct (value, fault point, operation)")
+
+
+
+def check_C07(chk):
+    bins = vlib.build_harness(["dbg-native"])
+    stage_format_dir2(chk, bins, maxbits=7 if chk.thorough else 6, maxn=8 if chk.thorough else 7)
+    chk.cov["exhaustive"] = True
+    stage_trace(chk, bins, "format", "TraceFormat", seeds=2 if chk.thorough else 1)
+    return chk.finish(rule="direction 2: every small-scope content of every documented type x every writer-side choice (supports absent, low width 1..9, "
+                           "sample width minimal or wider) encoded by tla/Format.tla and loaded by the library; direction 1: files written by the library "
+                           "for small-scope and random contents decoded and checked by TLC with the document-derived rules; distinct = distinct files")
